@@ -153,6 +153,12 @@ type Options struct {
 	RecordReads bool
 	Env         []string
 	Stderr      *os.File
+	// NoMarkers: record the whole run as one operation phase (for tracing a server that has no marker calls)
+	NoMarkers bool
+	// OnStart is called with the tracee's pid once it is running
+	OnStart func(pid int)
+	// StdoutPath: if set, the tracee's stdout+stderr go to this file (readable while it runs)
+	StdoutPath string
 }
 
 var traceMu sync.Mutex
@@ -223,6 +229,12 @@ func run(argv []string, opt Options) (*Result, error) {
 	defer outf.Close()
 	cmd.Stdout = outf // a plain file: no copying goroutine, nothing to Wait() for
 	cmd.Stderr = os.Stderr
+	if opt.StdoutPath != "" {
+		if lf, err := os.Create(opt.StdoutPath); err == nil {
+			defer lf.Close()
+			cmd.Stdout, cmd.Stderr = lf, lf
+		}
+	}
 	if opt.Stderr != nil {
 		cmd.Stderr = opt.Stderr
 	}
@@ -247,6 +259,13 @@ func run(argv []string, opt Options) (*Result, error) {
 	defer mem.Close()
 	res := &Result{}
 	var cur *OpTrace
+	if opt.NoMarkers {
+		cur = &OpTrace{Index: 0}
+		res.Ops = append(res.Ops, cur)
+	}
+	if opt.OnStart != nil {
+		opt.OnStart(pid)
+	}
 	pendingEntry := map[int]*Event{} // tid -> event recorded at entry, completed at exit
 	injectExit := map[int]int{}     // tid -> errno to set at exit
 	root := filepath.Clean(opt.SandboxRoot)
